@@ -531,6 +531,13 @@ func (t fakeTransport) Dereference(c context.Context, iri *url.URL) ([]byte, err
 		t.w.resp(J{"err": "injected"})
 		return nil, errInjected
 	}
+	b := docBytes(doc)
+	t.w.resp(okR(classifyDoc(b)))
+	return b, nil
+}
+
+// the bytes a remote document is served as
+func docBytes(doc interface{}) []byte {
 	var b []byte
 	if m, ok := doc.(map[string]interface{}); ok {
 		if raw, ok := m["__raw"].(string); ok {
@@ -546,8 +553,7 @@ func (t fakeTransport) Dereference(c context.Context, iri *url.URL) ([]byte, err
 	} else {
 		b, _ = json.Marshal(doc)
 	}
-	t.w.resp(okR(classifyDoc(b)))
-	return b, nil
+	return b
 }
 
 func (t fakeTransport) Deliver(c context.Context, b []byte, to *url.URL) error {
